@@ -52,6 +52,17 @@ struct Viol { std::string key, what; };
 
 static std::string msg_class(const std::string& m) { std::string c; for (char ch : m) { if (isdigit((unsigned char)ch)) { if (c.empty() || c.back() != '#') c.push_back('#'); } else c.push_back(ch); } return c.substr(0, 70); }
 
+template <class B> static std::string block_digest(B& b) {
+    std::ostringstream k;
+    k << "q" << b.get_qr_count() << "e" << b.get_aec_count() << "m" << b.get_mm_count() << "i" << b.get_block_parameters_index()
+      << "t" << PEEK(b, (long)o.m_ip_address.size(), -1L) << "," << PEEK(b, (long)o.m_classtype.size(), -1L) << "," << PEEK(b, (long)o.m_name_rdata.size(), -1L) << "," << PEEK(b, (long)o.m_qr_sig.size(), -1L) << "," << PEEK(b, (long)o.m_qlist.size(), -1L)
+      << "," << PEEK(b, (long)o.m_qrr.size(), -1L) << "," << PEEK(b, (long)o.m_rrlist.size(), -1L) << "," << PEEK(b, (long)o.m_rr.size(), -1L) << "," << PEEK(b, (long)o.m_malformed_message_data.size(), -1L)
+      << "e" << PEEK(b, (long long)o.m_block_preamble.earliest_time.m_secs, -1LL) << "." << PEEK(b, (long long)o.m_block_preamble.earliest_time.m_ticks, -1LL) << "s" << PEEK(b, (int)(o.m_block_statistics ? 1 : 0), -1)
+      << "p" << PEEK(b, (long long)o.m_block_parameters.storage_parameters.max_block_items, -1LL) << "," << PEEK(b, (long long)o.m_block_parameters.storage_parameters.ticks_per_second, -1LL) << ","
+      << PEEK(b, (long long)o.m_block_parameters.storage_parameters.storage_hints.query_response_hints, -1LL) << "," << PEEK(b, (long long)o.m_block_parameters.storage_parameters.storage_hints.query_response_signature_hints, -1LL) << ","
+      << PEEK(b, (int)o.m_block_parameters.storage_parameters.storage_hints.rr_hints, -1) << "," << PEEK(b, (int)o.m_block_parameters.storage_parameters.storage_hints.other_data_hints, -1);
+    return k.str();
+}
 // returns true if the history is inside the documented preconditions (counted), false if pruned
 static bool run_history(const Cfg& cfg, const Run& run, const std::vector<Op>& h, Result& R, std::vector<Viol>& V, std::string* state_key = nullptr) {
     std::vector<BlockParameters> bps; std::vector<model::Params> mps;
@@ -133,14 +144,12 @@ static bool run_history(const Cfg& cfg, const Run& run, const std::vector<Op>& h
         else k << M.cur.dump();
         k << "|v" << M.cur_version << "|a" << M.active << "|bw" << (g_abstract_key ? std::min<size_t>(M.blocks_written, 2) : M.blocks_written) << "|np" << M.params.size() << "|hp" << M.outs.back().header_params << "|ver";
         for (auto v : M.versions) k << v << ","; for (auto v : M.outs.back().header_versions) k << v << ".";
-        auto& enc = E->m_encoder; size_t fill = enc.m_p - enc.m_buffer; uint64_t hsh = 1469598103934665603ULL; for (size_t i = 0; i < fill; i++) { hsh ^= enc.m_buffer[i]; hsh *= 1099511628211ULL; }
-        auto& b = E->m_block;
-        if (!g_abstract_key) k << "#f" << fill << "h" << hsh << "bw" << E->m_blocks_written << "o" << (run.sink == S_MEM ? mem.size() : names.size());
-        k << "a" << E->m_active_block_parameters << "q" << b.m_query_responses.size() << "e" << b.m_address_event_counts.size() << "m" << b.m_malformed_messages.size()
-          << "t" << b.m_ip_address.size() << "," << b.m_classtype.size() << "," << b.m_name_rdata.size() << "," << b.m_qr_sig.size() << "," << b.m_qlist.size() << "," << b.m_qrr.size() << "," << b.m_rrlist.size() << "," << b.m_rr.size() << "," << b.m_malformed_message_data.size()
-          << "e" << b.m_block_preamble.earliest_time.m_secs << "." << b.m_block_preamble.earliest_time.m_ticks << "i" << b.get_block_parameters_index() << "s" << (b.m_block_statistics ? 1 : 0)
-          << "p" << b.m_block_parameters.storage_parameters.max_block_items << "," << b.m_block_parameters.storage_parameters.ticks_per_second << "," << b.m_block_parameters.storage_parameters.storage_hints.query_response_hints << "," << b.m_block_parameters.storage_parameters.storage_hints.query_response_signature_hints
-          << "," << (int)b.m_block_parameters.storage_parameters.storage_hints.rr_hints << "," << (int)b.m_block_parameters.storage_parameters.storage_hints.other_data_hints << "fp" << E->m_file_preamble.block_parameters_size();
+        // implementation digest through tolerant accessors: a member that no longer exists under this name contributes "?" (and is reported once)
+        long fill = PEEK(*E, (long)(o.m_encoder.m_p - o.m_encoder.m_buffer), -1L); uint64_t hsh = 1469598103934665603ULL;
+        if (fill >= 0) { const unsigned char* bufp = PEEK(*E, (const unsigned char*)o.m_encoder.m_buffer, (const unsigned char*)nullptr); if (bufp) for (long i = 0; i < fill; i++) { hsh ^= bufp[i]; hsh *= 1099511628211ULL; } }
+        if (!g_abstract_key) k << "#f" << fill << "h" << hsh << "bw" << PEEK(*E, (long)o.m_blocks_written, -1L) << "o" << (run.sink == S_MEM ? mem.size() : names.size());
+        k << "a" << PEEK(*E, (long)o.m_active_block_parameters, -1L) << "fp" << PEEK(*E, (long)o.m_file_preamble.block_parameters_size(), -1L);
+        k << "B" << PEEK(*E, block_digest(o.m_block), std::string("?"));
         *state_key = k.str();
     }
     size_t last_blocks = M.outs.back().blocks.size();
